@@ -12,6 +12,7 @@ import (
 	"runtime"
 	"strings"
 	"sync"
+	"sync/atomic"
 	"time"
 
 	"github.com/ipfs/go-cid"
@@ -46,11 +47,13 @@ type msync struct {
 	Stored   int      `json:"stored"`
 	Latest   int      `json:"latest"`
 	Events   []mevent `json:"events"`
+	Probes   int      `json:"probes"`
 }
 
 type behaviour struct {
 	Cfg struct {
 		Mode    string  `json:"mode"`
+		Pend    bool    `json:"pend"`
 		Trigger string  `json:"trigger"`
 		Seg     int     `json:"seg"`
 		Addrs   int     `json:"addrs"`
@@ -91,6 +94,7 @@ type observedSync struct {
 	Err      string   `json:"err,omitempty"`
 	Audit    []string `json:"audit,omitempty"`
 	Paths    []string `json:"paths,omitempty"`
+	Probes   int      `json:"probes,omitempty"`
 }
 
 const n = 3
@@ -104,6 +108,9 @@ func num(ch *chain.Chain, c cid.Cid) int {
 	}
 	if i, ok := ch.Index[c]; ok {
 		return i
+	}
+	if c == ch.Off {
+		return n + 1 // the model's Off: a CID the publisher does not have
 	}
 	return -1
 }
@@ -170,6 +177,7 @@ func replay(b *behaviour, e *env, variant int) (key, detail string, at int, obs 
 		x, _ := ch.Store.Get(ch.Cids[k])
 		return x
 	}
+	var pendErr error
 	for i := range b.Syncs {
 		want := &b.Syncs[i]
 		e.proxy.Reset()
@@ -189,6 +197,21 @@ func replay(b *behaviour, e *env, variant int) (key, detail string, at int, obs 
 		e.proxy.Plan = func(seq int, path string) *chain.Fault {
 			if f == nil {
 				return nil
+			}
+			if b.Cfg.Pend && seq == f.At {
+				// while this request is being answered the publisher announces another head (one it does not have); the request
+				// is answered once the announcement sits in the publisher's pending slot
+				handed := make(chan struct{})
+				offHanded.Store(&handed)
+				pendErr = sub.Announce(context.Background(), ch.Off, pi)
+				select {
+				case <-handed:
+				case <-time.After(5 * time.Second):
+					if pendErr == nil {
+						pendErr = errors.New("the second announcement was not handed to the publisher's handler within 5 s")
+					}
+				}
+				offHanded.Store(nil)
 			}
 			kind := ""
 			switch {
@@ -230,6 +253,7 @@ func replay(b *behaviour, e *env, variant int) (key, detail string, at int, obs 
 			}
 			return &chain.Fault{Kind: kind, Arg: arg}
 		}
+		pendErr = nil
 		ob := observedSync{}
 		if b.Cfg.Trigger == "explicit" {
 			c, err := sub.SyncAdChain(ctx, pi)
@@ -266,7 +290,7 @@ func replay(b *behaviour, e *env, variant int) (key, detail string, at int, obs 
 					break collect
 				}
 				ob.Events = append(ob.Events, mevent{Cid: num(ch, ev.Cid), Err: ev.Err != nil, Count: ev.Count})
-				if b.Cfg.Trigger == "announce" {
+				if b.Cfg.Trigger == "announce" && ev.Cid != ch.Off { // the sync's own notification (a second announcement has one of its own)
 					if ev.Err != nil {
 						ob.Result = "error"
 						ob.Err = ev.Err.Error()
@@ -292,12 +316,18 @@ func replay(b *behaviour, e *env, variant int) (key, detail string, at int, obs 
 		if l := sub.GetLatestSync(e.pub.ID); l != nil {
 			ob.Latest = num(ch, l.(cidlink.Link).Cid)
 		}
+		if pendErr != nil {
+			return "infra", "second announcement: " + pendErr.Error(), i, obs
+		}
 		ob.Paths = e.proxy.Paths
+		ob.Probes = e.proxy.ProbeCount()
 		obs = append(obs, ob)
 		// judge this sync
 		switch {
 		case len(ob.Audit) != 0:
 			return "store-holds-unverified-block", fmt.Sprintf("sync %d: stored blocks that do not hash to their CID: %v", i+1, ob.Audit), i, obs
+		case b.Cfg.Mode == "legacy" && ob.Probes != want.Probes:
+			return "legacy-probe", fmt.Sprintf("sync %d: %d requests under the IPNI path (answered 404), model %d; path-less requests %v", i+1, ob.Probes, want.Probes, ob.Paths), i, obs
 		case ob.Result == "ok" && want.Result == "error" && f != nil && f.Kind == "reset" && repeated(ob.Paths):
 			// net/http transparently repeats an idempotent request whose connection broke: the fault never reached the library
 			return "", "tolerated:transport-retried-request", i, obs
@@ -441,7 +471,17 @@ func overlapRound(r *rep.Report, rounds int) int {
 	return done
 }
 
+// offHanded: closed by the library's hook when an announcement of a chain's Off CID has been put into its publisher's pending slot.
+var offHanded atomic.Pointer[chan struct{}]
+
 func Run(args []string) *rep.Report {
+	dagsync.VerifYield = func(point string, _ peer.ID, c cid.Cid) {
+		if point == "w.swap.first" || point == "w.swap.replaced" {
+			if h := offHanded.Swap(nil); h != nil {
+				close(*h)
+			}
+		}
+	}
 	fs := flag.NewFlagSet("c04", flag.ExitOnError)
 	file := fs.String("behaviours", "", "ndjson behaviours exported by TLC")
 	shard := fs.String("shard", "", "i/n (internal)")
@@ -467,11 +507,12 @@ func Run(args []string) *rep.Report {
 		if err != nil {
 			return nil, err
 		}
-		pub, err := chain.NewPub(ch, "c04-pub-"+k, mode == "plain")
+		pub, err := chain.NewPub(ch, "c04-pub-"+k, mode != "libp2p")
 		if err != nil {
 			return nil, err
 		}
 		e := &env{ch: ch, pub: pub, proxy: chain.NewProxy(pub.Addrs[0])}
+		e.proxy.Legacy = mode == "legacy"
 		envs[k] = e
 		return e, nil
 	}
